@@ -197,7 +197,20 @@ func cmdConc(args []string) int {
 		rng := rand.New(rand.NewSource(*seed * 7919))
 		for i := 0; i < 12; i++ {
 			time.Sleep(time.Duration(rng.Intn(1500)) * time.Microsecond)
-			switch rng.Intn(7) {
+			switch rng.Intn(9) {
+			case 7:
+				// bulk import + commit: the commit snapshots and starts the background turbo refine
+				items2 := []types.BatchObject{{Id: fmt.Sprintf("imp%d-a", i), Vector: []float32{2, 2, float32(i), 1}},
+					{Id: fmt.Sprintf("imp%d-b", i), Vector: []float32{3, 2, float32(i), 1}, Metadata: map[string]any{"content": "imported"}}}
+				call("VImport", func() (bool, map[string]any) { return e.VImport(ix, items2) == nil, nil }, nil)
+				call("VImportCommit", func() (bool, map[string]any) { return e.VImportCommit(ix) == nil, nil }, nil)
+			case 8:
+				src := fmt.Sprintf("ev-src%d", i)
+				call("VAdd", func() (bool, map[string]any) { return e.VAdd(ix, src, []float32{4, 4, float32(i), 1}, map[string]any{"content": "to evolve"}) == nil, nil }, nil)
+				call("VEvolve", func() (bool, map[string]any) {
+					_, err := e.VEvolve(ix, src, []float32{4, 5, float32(i), 1}, map[string]any{"content": "evolved"}, "conc")
+					return err == nil, nil
+				}, nil)
 			case 0:
 				call("SaveSnapshot", func() (bool, map[string]any) { return e.SaveSnapshot() == nil, nil }, nil)
 			case 1:
